@@ -116,7 +116,9 @@ def make_server(logger, host, port, handler):
 
 class FakeSocket:
     def __init__(self, data):
-        self.rf = io.BytesIO(data)
+        # like socket.makefile('rb'): a BufferedReader (read(n) allocates n bytes up front, so huge n
+        # raises OverflowError / MemoryError exactly as on a real socket)
+        self.rf = io.BufferedReader(io.BytesIO(data))
         self.out = io.BytesIO()
 
     def makefile(self, mode, *a, **k):
